@@ -31,7 +31,7 @@ struct C04 : Property
 	{
 		return {"reset.with_pending_member_name", "reset.inside_nested_containers", "reset.inside_string", "reset.inside_number", "reset.after_error", "reset.after_success",
 		        "free.with_partial_state", "error.depth_at_limit_1", "error.size_bad_length", "feed.c_string_mode", "feed.zero_length", "printbuf_growth.long_token",
-		        "mirror.compared_calls", "outcome.success", "outcome.continue", "fault.alloc_inside_parse", "outcome.memory_error_then_reset", "parse_verbose.compared"};
+		        "mirror.compared_calls", "outcome.success", "outcome.continue", "fault.alloc_inside_parse", "outcome.memory_error_then_reset", "parse_verbose.compared", "constructor.allocation_failure"};
 	}
 	std::map<std::string, int64_t> cfg_defaults() const override { return {}; }
 
@@ -102,7 +102,7 @@ struct C04 : Property
 		};
 		static const int flagsets[8] = {0, 1, 2, 3, 0x10, 0x11, 0x12, 0x13};
 		static const int depths[10] = {1, 1, 2, 3, 4, 8, 32, 32, 40, 5};
-		op0("new", {depths[r.below(10)]});
+		op0("new", {depths[r.below(10)], (int64_t)r.below(2)});
 		if (r.chance(2, 3))
 			op0("flags", {flagsets[r.below(8)]});
 		for (int s = 0; s < nstreams && p.ops.size() < 40; s++)
@@ -145,7 +145,7 @@ struct C04 : Property
 			case 2: op0("reset"); break;
 			case 3:
 				op0("free");
-				op0("new", {depths[r.below(10)]});
+				op0("new", {depths[r.below(10)], (int64_t)r.below(2)});
 				if (r.chance(1, 2))
 					op0("flags", {flagsets[r.below(8)]});
 				break;
@@ -265,6 +265,28 @@ struct C04 : Property
 				if (s.depth > 64)
 					s.depth = 64;
 				s.flags = 0;
+				// the constructor itself under every single allocation failure (its own failure paths must release what they hold)
+				if (p.c("faulted") && (op.arg(1) & 1))
+				{
+					size_t live_before = g_alloc.live.size();
+					for (long k = 0; k < 6; k++)
+					{
+						g_alloc.begin_op();
+						g_alloc.fail_at = {k};
+						struct json_tokener *t = LIB(json_tokener_new_ex(s.depth));
+						bool fired = g_alloc.fired > 0;
+						g_alloc.fail_at.clear();
+						if (t)
+							LIBV(json_tokener_free(t));
+						if (g_alloc.live.size() != live_before)
+							ctx.fail("C04:leak@" + g_alloc.first_live_site(), "json_tokener_new_ex(%d) with allocation #%ld failing %s and leaves %zu allocation(s) behind", s.depth, k,
+							         t ? "succeeded" : "returned NULL", g_alloc.live.size() - live_before);
+						if (!fired)
+							break;
+						ctx.probe("constructor.allocation_failure");
+					}
+					g_alloc.begin_op();
+				}
 				ensure(s, ctx);
 				// a second brand-new parser is fed the same chunks from the very beginning: two tokeners never influence each other
 				// (nothing of the scanner state may live outside the tokener), and a new parser behaves like a new parser
